@@ -25,6 +25,8 @@ def inventory(prog):
 
 def run(pid, ctx):
     try:
+        from . import selftest
+        selftest.run(ctx)
         return PROPS[pid](ctx)
     except facts.AnchorMissing as e:
         ctx.anchor_missing("ANCHOR", str(e))
